@@ -268,10 +268,13 @@ void* _mi_heap_realloc_zero(mi_heap_t* heap, void* p, size_t newsize, bool zero)
   }
   void* newp = mi_heap_malloc(heap,newsize);
   if mi_likely(newp != NULL) {
-    if (zero && newsize > size) {
+    if (zero) {
+      // zero-initialize everything beyond the copied part up to the full usable size of the new block
+      // (so a later in-place growth also sees zeros).
       // also set last word in the previous allocation to zero to ensure any padding is zero-initialized
-      const size_t start = (size >= sizeof(intptr_t) ? size - sizeof(intptr_t) : 0);
-      _mi_memzero((uint8_t*)newp + start, newsize - start);
+      const size_t start = (newsize <= size ? newsize : (size >= sizeof(intptr_t) ? size - sizeof(intptr_t) : 0));
+      const size_t usable = mi_usable_size(newp);
+      if (usable > start) { _mi_memzero((uint8_t*)newp + start, usable - start); }
     }
     else if (newsize == 0) {
       ((uint8_t*)newp)[0] = 0; // work around for applications that expect zero-reallocation to be zero initialized (issue #725)
